@@ -31,10 +31,10 @@ def probe_createvarn(size):
     return rc == 0
 
 
-# Property-mode statements the unchanged tree violates (design.d/C16.md "Findings"); they are counted in
-# prop_stats (probe.*) and become FAIL lines when armed (after the code is fixed):
-ARM_GENERIC_ARITY = False         # Evaluation<T, n>::createConstant(n, c) of the primary template throws (guard `nVars != 0`)
-ARM_DYNAMIC_PREDICATES = False    # MathToolbox<DynamicEvaluation>::isnan/isfinite/isSame ignore the derivatives
+# Property-mode statements that the tree violated before fixes 8f428cec0 / fb7b4d497 (design.d/C16.md
+# "Findings"); armed = FAIL lines (disarmed they are only counted as probe.* in prop_stats):
+ARM_GENERIC_ARITY = True          # Evaluation<T, n>::createConstant(n, c) of the primary template (guard was `nVars != 0`)
+ARM_DYNAMIC_PREDICATES = True     # MathToolbox<DynamicEvaluation>::isnan/isfinite/isSame look at the derivatives
 
 
 def run(ctx):
